@@ -40,6 +40,10 @@ void *sim_map_lookup(void *id, unsigned type, unsigned ksz, unsigned vsz, unsign
 long sim_map_update(void *id, unsigned type, unsigned ksz, unsigned vsz, unsigned cap, const void *key, const void *val, __u64 flags) {
     struct map *m = getmap(id, type, ksz, vsz, cap);
     struct ent *e = find(m, key);
+    /* bpf-helpers(7): BPF_NOEXIST (1) - the entry must not exist yet; BPF_EXIST (2) - it must exist; BPF_ANY (0) - no condition */
+    if (flags == 1 && e) return -17;  /* EEXIST */
+    if (flags == 2 && !e) return -2;  /* ENOENT */
+    if (flags > 2) return -22;        /* EINVAL */
     if (!e) {
         if (count(m) >= m->cap) {
             if (m->type != BPF_MAP_TYPE_LRU_HASH) return -7; /* E2BIG */
@@ -54,7 +58,6 @@ long sim_map_update(void *id, unsigned type, unsigned ksz, unsigned vsz, unsigne
     }
     memcpy(e->val, val, m->vsz);
     e->used = ++tick;
-    (void)flags;
     return 0;
 }
 long sim_map_delete(void *id, unsigned type, unsigned ksz, unsigned vsz, unsigned cap, const void *key) {
